@@ -5,7 +5,8 @@ Translation validation: for all grammars `G`, automata `A` (tables as dumped fro
 `lr1.Parser`) and certificates `C`, `Valid G A C` (decided by the executable checker, run on
 every generated table) implies the theorems below about `run A` — the model of `Parser.parse`.
 -/
-import Emboss.Lemmas.Lr1Complete
+import Emboss.Lemmas.Lr1Error
+import Emboss.Generated.Lr1Examples
 namespace Emboss.Lr1
 
 /-- **Soundness.**  If the tables validate and the parser accepts `w` with tree `t`, then `t`
@@ -51,5 +52,129 @@ theorem C08_terminates_partial {G : Grammar} {A : Automaton} {C : Cert} (hv : Va
   obtain ⟨t, hd⟩ := hs
   obtain ⟨f, hf⟩ := run_complete hv hd
   exact ⟨f, t, hf f (Nat.le_refl _)⟩
+
+/-- **Error position.**  If the tables validate and every nonterminal is productive, an error
+reported at index `i` is raised at the first token no sentence can continue with: the consumed
+input `w[:i]` is a prefix of a sentence, and no sentence agrees with `w` on positions `≤ i` —
+in particular none starts with `w[:i+1]`, and `w` itself is not a sentence.  (Index `|w|` is
+the implicit end-of-input token.) -/
+theorem C08_error_position {G : Grammar} {A : Automaton} {C : Cert} (hv : Valid G A C)
+    (hr : Reduced G) {w : List Token} {fuel : Nat} {code : Option Nat} {i s : Nat} {e : List Nat}
+    (h : run A fuel w = .error code i s e) :
+    ViablePrefix G (w.take i) ∧
+    (i < w.length → ∀ v, ¬ Sentence G (w.take (i + 1) ++ v)) ∧
+    ¬ Sentence G w := by
+  refine ⟨runFrom_error_viable hv hr w fuel init (inv_init w) (grounded_init hv hr) code i s e h, ?_, ?_⟩
+  · intro hi v
+    refine no_sentence_of_error hv h (fun j hj => ?_)
+    have hj' : j < (w.take (i + 1)).length := by simp; omega
+    rw [List.getElem?_append_left hj', List.getElem?_take]
+    simp [Nat.lt_succ_of_le hj]
+  · exact no_sentence_of_error hv h (fun _ _ => rfl)
+
+/-! ### non-vacuity and the counterexample (tables regenerated from the real lr1.py) -/
+open Examples
+
+-- test: the example tables (S → A b; A → a A | ε) validate, accept `a a b` with the expected
+-- tree, and reject `a a` at end of input
+example : Valid exG exA exC := exValid
+example : run exA 20 [⟨5, 0⟩, ⟨5, 1⟩, ⟨4, 2⟩] =
+    .accept (.node ⟨2, [3, 4]⟩ [.node ⟨3, [5, 3]⟩ [.leaf ⟨5, 0⟩,
+      .node ⟨3, [5, 3]⟩ [.leaf ⟨5, 1⟩, .node ⟨3, []⟩ []]], .leaf ⟨4, 2⟩]) := by decide
+example : run exA 20 [⟨5, 0⟩, ⟨5, 1⟩] = .error none 2 3 [4, 5] := by decide
+example : Reduced exG :=
+  ⟨by
+    have hA : Productive exG 3 := ⟨.node ⟨3, []⟩ [], ParseTree.node _ _ (by decide) (by simp) rfl, rfl⟩
+    have hS : Productive exG 2 :=
+      ⟨.node ⟨2, [3, 4]⟩ [.node ⟨3, []⟩ [], .leaf ⟨4, 0⟩],
+        ParseTree.node _ _ (by decide)
+          (by
+            intro c hc
+            simp only [List.mem_cons, List.mem_nil_iff, or_false] at hc
+            rcases hc with rfl | rfl
+            · exact ParseTree.node _ _ (by decide) (by simp) rfl
+            · exact ParseTree.leaf _ (by decide)) rfl, rfl⟩
+    intro p hp
+    simp only [exG, List.mem_cons, List.mem_nil_iff, or_false] at hp
+    rcases hp with rfl | rfl | rfl
+    · exact hS
+    · exact hA
+    · exact hA,
+   ⟨.node ⟨2, [3, 4]⟩ [.node ⟨3, []⟩ [], .leaf ⟨4, 0⟩],
+        ParseTree.node _ _ (by decide)
+          (by
+            intro c hc
+            simp only [List.mem_cons, List.mem_nil_iff, or_false] at hc
+            rcases hc with rfl | rfl
+            · exact ParseTree.node _ _ (by decide) (by simp) rfl
+            · exact ParseTree.leaf _ (by decide)) rfl, rfl⟩⟩
+
+theorem leaf_of_terminal_root {G : Grammar} {t : Tree} (ht : ParseTree G t)
+    (h : G.isNT t.root = false) : ∃ tok, t = .leaf tok := by
+  cases ht with
+  | leaf tok _ => exact ⟨tok, rfl⟩
+  | node p cs hp _ _ =>
+    exfalso
+    have : G.isNT p.lhs = true := Grammar.isNT_iff.mpr ⟨p, List.mem_append_left _ hp, rfl⟩
+    simp only [Tree.root] at h
+    rw [this] at h; cases h
+
+theorem map_root_pair {cs : List Tree} {x y : Nat} (h : cs.map Tree.root = [x, y]) :
+    ∃ c1 c2, cs = [c1, c2] ∧ c1.root = x ∧ c2.root = y := by
+  match cs, h with
+  | [c1, c2], h =>
+    simp only [List.map_cons, List.map_nil, List.cons.injEq, and_true] at h
+    exact ⟨c1, c2, rfl, h.1, h.2⟩
+  | [], h => simp at h
+  | [_], h => simp at h
+  | _ :: _ :: _ :: _, h => simp at h
+
+/-- In `S → a B | a c ; B → b B` the nonterminal `B` (code 4) derives no terminal string. -/
+theorem f10_no_tree_for_B : ∀ {t : Tree}, ParseTree f10G t → t.root ≠ 4 := by
+  intro t ht
+  induction ht with
+  | leaf tok hnt =>
+    intro h
+    simp only [Tree.root] at h
+    rw [h] at hnt
+    revert hnt; decide
+  | node p cs hp hcs hroots ih =>
+    intro h
+    simp only [Tree.root] at h
+    simp only [f10G, List.mem_cons, List.mem_nil_iff, or_false] at hp
+    rcases hp with rfl | rfl | rfl
+    · cases h
+    · cases h
+    · obtain ⟨c1, c2, rfl, _, h2⟩ := map_root_pair hroots
+      exact ih c2 (by simp) h2
+
+/-- **Counterexample (finding F10).**  Without productivity `C08_error_position` is false on
+the real tables: for `S → a B | a c ; B → b B` the (validated) parser consumes `a b` and reports
+the error at index 2 (end of input), although no sentence starts with `a b`. -/
+theorem C08_error_position_unproductive_counterexample :
+    Valid f10G f10A f10C ∧
+    run f10A 20 [⟨3, 0⟩, ⟨6, 1⟩] = .error none 2 4 [6] ∧
+    ¬ ViablePrefix f10G ([⟨3, 0⟩, ⟨6, 1⟩].take 2) := by
+  refine ⟨f10Valid, by decide, ?_⟩
+  intro ⟨v, t, hp, hroot, hy⟩
+  cases hp with
+  | leaf tok hnt =>
+    simp only [Tree.root] at hroot
+    rw [hroot] at hnt
+    revert hnt; decide
+  | node p cs hpm hcs hroots =>
+    simp only [f10G, List.mem_cons, List.mem_nil_iff, or_false] at hpm
+    rcases hpm with rfl | rfl | rfl
+    · obtain ⟨c1, c2, rfl, _, h2⟩ := map_root_pair hroots
+      exact f10_no_tree_for_B (hcs c2 (by simp)) h2
+    · obtain ⟨c1, c2, rfl, h1, h2⟩ := map_root_pair hroots
+      obtain ⟨t1, rfl⟩ := leaf_of_terminal_root (hcs c1 (by simp)) (by rw [h1]; decide)
+      obtain ⟨t2, rfl⟩ := leaf_of_terminal_root (hcs c2 (by simp)) (by rw [h2]; decide)
+      simp only [Tree.yield, Tree.yieldL, List.take, List.cons_append, List.nil_append,
+        List.append_nil, List.cons.injEq] at hy
+      have h2' : t2.sym = 5 := h2
+      rw [hy.2.1] at h2'
+      cases h2'
+    · cases hroot
 
 end Emboss.Lr1
